@@ -281,9 +281,19 @@ func (prop) Gen(r *core.Rand, tier string) []core.Case {
 		role := roles[r.Intn(4)]
 		c := core.Case{ID: fmt.Sprintf("sleep%d", i), NT: true}
 		c.Ops = append(c.Ops, "gen 0 "+hx(role)+" 1", fmt.Sprintf("mintrel 1 0 %s 1000 %s", hx(role), core.Hex(r.Bytes(12))))
-		c.Ops = append(c.Ops, use(0, 2)...)
+		before := append(use(0, 2), use(1, 1)...)
+		// an allowed and a denied request that are REPEATED verbatim after the expiry (a decision remembered per
+		// token/method/path must not outlive the token)
+		before = append(before, "enforce 0 "+hx("/bytes/1")+" "+hx("GET"), "enforce 0 "+hx("/pingpong/x")+" "+hx("POST"), "http 0 "+hx("/bytes/1")+" "+hx("GET"),
+			"enforce 1 "+hx("/bytes/1")+" "+hx("GET"))
+		c.Ops = append(c.Ops, before...)
 		c.Ops = append(c.Ops, "refresh 0 2 1", "refresh 1 3 3")
 		c.Ops = append(c.Ops, "sleep 1250")
+		for _, o := range before {
+			if !strings.HasPrefix(o, "refresh ") {
+				c.Ops = append(c.Ops, o)
+			}
+		}
 		c.Ops = append(c.Ops, use(0, 2)...)
 		c.Ops = append(c.Ops, use(1, 1)...)
 		c.Ops = append(c.Ops, use(2, 1)...)
